@@ -705,6 +705,22 @@ def v2TimeoutWindow (env : Env) (tt : Nat) : Except String Unit :=
   if tsec ≤ bsec then .error e2TimeoutElapsed else
   if tsec > bsec + maxTimeoutDelta then .error e2InvalidTimeout else .ok ()
 
+/-- the light-client guards of `sendPacket` (on the alias-resolved client): Active, non-zero latest
+    height, and the timeout (seconds) strictly after the latest consensus timestamp (in seconds) -/
+def sendV2ClientGuards (s : ChainState) (env : Env) (src : Id) (tt : Nat) : Except String Unit :=
+  let clientId := baseClient s src
+  if clientStatus s env clientId ≠ .active then .error eClientNotActive else
+  let lh := clientLatestHeight s env clientId
+  if lh.isZero then .error eInvalidHeight else
+  match clientTimestampAt s env clientId with
+  | .error e => .error e
+  | .ok ltsNano =>
+  if nanosToSecsU64 ltsNano ≥ tt then .error e2TimeoutElapsed else .ok ()
+
+/-- the two writes of a successful v2 send -/
+def commitSendV2 (s : ChainState) (src : Id) (seq : Nat) (c : CommitV2) : ChainState :=
+  { s with nextSend := s.nextSend.set src (seq + 1), commitV2 := s.commitV2.set (src, seq) c }
+
 /-- `sendPacket` -/
 def sendPacketV2 (s : ChainState) (env : Env) (src : Id) (tt : Nat) (payloads : List Payload) :
     Except String (ChainState × Nat) :=
@@ -718,17 +734,9 @@ def sendPacketV2 (s : ChainState) (env : Env) (src : Id) (tt : Nat) (payloads : 
   | none => .error e2NSendNotFound
   | some seq =>
   if !packetValidV2 payloads seq tt then .error e2InvalidPacket else
-  let _ := cpId
-  let clientId := baseClient s src
-  if clientStatus s env clientId ≠ .active then .error eClientNotActive else
-  let lh := clientLatestHeight s env clientId
-  if lh.isZero then .error eInvalidHeight else
-  match clientTimestampAt s env clientId with
+  match sendV2ClientGuards s env src tt with
   | .error e => .error e
-  | .ok ltsNano =>
-  if nanosToSecsU64 ltsNano ≥ tt then .error e2TimeoutElapsed else
-  .ok ({ s with nextSend := s.nextSend.set src (seq + 1),
-                commitV2 := s.commitV2.set (src, seq) ⟨cpId, tt, payloads⟩ }, seq)
+  | .ok _ => .ok (commitSendV2 s src seq ⟨cpId, tt, payloads⟩, seq)
 
 /-- callbacks of the sending / acknowledging / timing-out side: one per payload, in order, on ctx
     (they only touch the application store); the first error fails the tx; an unknown port makes
